@@ -42,7 +42,7 @@ def run(ctx):
             s["seed"] = seed
         return scns
     standard_pipeline(
-        ctx, sub="cookie",
+        ctx, checked=True, sub="cookie",
         mc=[("MC_Cookie", "MC_Cookie.cfg" if q else "MC_Cookie_deep.cfg", dict(workers=8, timeout=900))],
         gen=[("CookieGen", "Gen_Cookie.cfg" if q else "Gen_Cookie_deep.cfg", dict(workers=2, timeout=600))],
         trace=("Trace_Cookie", "Trace_Cookie.cfg"), post_gen=post,
